@@ -155,9 +155,12 @@ def engine_seq(pid, tier):
             configs = configs_quick
         else:
             configs = configs_full
+        planned = {}
         for backend, driver, frac in configs:
-            g = seqplan.Graph(edges, driver)
-            tours = seqplan.plan_tours(g, ncl, rng=random.Random(rng.random()))
+            if driver not in planned:
+                g = seqplan.Graph(edges, driver)
+                planned[driver] = (g, seqplan.plan_tours(g, ncl, rng=random.Random(rng.random())))
+            g, tours = planned[driver]
             if frac < 1.0:
                 tours = [t for t in tours if rng.random() < frac]
             js = seqplan.tours_to_jobs(tours, g, ncl, cfg, backend, driver, run0, f"{mname}-{backend}-{driver}-")
